@@ -20,7 +20,8 @@ RULE = ('adapters {unwrap_kiwi_future, plum_to_kiwi_future (+unwrap), create_tas
         '{value, falsy value, exception, cancellation} at the innermost level reached x every order of completing the levels (inner before the '
         'outer resolves to it, and after) x completing thread {loop thread, other thread}; CancellableAction x {run, run twice, cancel then run, '
         'raising action, run with args}; exhaustive for depth <=3 same-thread, depth 4 and thread mode sampled; non-trivial when depth >= 2')
-ASSUMPTIONS = ['a cancelled coroutine given to create_task / an awaited future cancelled inside _schedule_rpc is outside the statement ("result or exception")',
+ASSUMPTIONS = ['a cancelled coroutine given to create_task is outside the statement ("result or exception"); a future handed back by a _schedule_rpc callback '
+               'that ends cancelled must make the reply end cancelled (the mirror rule of the statement)',
                'an exception raised by a _schedule_rpc callback may arrive wrapped, as long as it chains to the original',
                'thread-mode cases that hit their watchdog are inconclusive, never violations']
 REQUIRED = ['adapter/comm_thread', 'injected_delays', 'adapter/unwrap', 'adapter/plum2kiwi', 'adapter/create_task', 'adapter/schedule_rpc', 'outcome/value', 'outcome/exception', 'outcome/cancel',
@@ -60,7 +61,7 @@ def gen_cases(tier, seed):
             cases.append({'adapter': 'create_task', 'depth': 1, 'order': [0], 'outcome': oc, 'thread': False, 'yields': yields})
             cases.append({'adapter': 'create_task', 'depth': 1, 'order': [0], 'outcome': oc, 'thread': True, 'yields': yields})
     for depth in (0, 1, 2, 3):
-        for oc in OUTCOMES[:4]:
+        for oc in (OUTCOMES if depth else OUTCOMES[:4]):
             orders = list(itertools.permutations(range(depth))) or [()]
             for order in orders:
                 cases.append({'adapter': 'schedule_rpc', 'depth': depth, 'order': list(order), 'outcome': oc, 'thread': False})
